@@ -14,15 +14,15 @@ FUNCTIONS = ["xgcm.grid:Grid.set_metrics", "xgcm.grid:Grid.get_metric", "xgcm.me
              "xgcm.grid:Grid.interp_like", "xgcm.grid:Grid.integrate", "xgcm.grid:Grid.average", "xgcm.grid:Grid.derivative",
              "xgcm.grid:Grid.cumint", "xgcm.grid:Grid._1d_grid_ufunc_dispatch", "xgcm.grid:Grid.cumsum"]
 BOUNDS = {
-    "quick": {"selection": "2 axes with positions {center,left}; pool of 8 metric variables (2 per single axis, 4 areas); every registry of <= 3 variables (92), registered in pool order; 4 array positions x requests (X),(Y),(X,Y),(Y,X); N=2; data and every metric cell symbolic (positive)",
+    "quick": {"selection": "2 axes with positions X {center,left}, Y {center,right}; pool of 8 metric variables (2 per single axis, 4 areas); every registry of <= 3 variables (92), registered in pool order; 4 array positions x requests (X),(Y),(X,Y),(Y,X); N=2; data and every metric cell symbolic (positive)",
               "operations": "integrate (all axis orders), average (constant field and general), derivative, metric_weighted diff/interp/cumsum on a fully registered 2-axis grid, N in {2,3}"},
     "thorough": {"selection": "+ reversed registration order; 3 axes X,Y (center,left), Z (center,outer): pool of 26, every registry of <= 2 variables and a seeded sample of 600 registries of 3-4; 8 array positions x 7 axis subsets",
                  "operations": "+ 3 axes"},
 }
 OUTSIDE = [">3 axes", "metrics with extra (non-axis) dimensions", "spurious interpolation warnings (the statement does not forbid them)", "float rounding"]
 ASSUMPTIONS = ["metrics strictly positive", "data finite"]
-POSN = {"X": ("center", "left"), "Y": ("center", "left"), "Z": ("center", "outer")}
-DIM = {("X", "center"): "xc", ("X", "left"): "xg", ("Y", "center"): "yc", ("Y", "left"): "yg", ("Z", "center"): "zc", ("Z", "outer"): "zo"}
+POSN = {"X": ("center", "left"), "Y": ("center", "right"), "Z": ("center", "outer")}
+DIM = {("X", "center"): "xc", ("X", "left"): "xg", ("Y", "center"): "yc", ("Y", "right"): "yg", ("Z", "center"): "zc", ("Z", "outer"): "zo"}
 DIMPOS = {v: k for k, v in DIM.items()}
 
 
@@ -53,8 +53,8 @@ def cases(tier):
             out.append(dict(kind="sel", axes=["X", "Y"], reg=list(r)[::-1], N=2))
     # three axes: registries offering partitions of different block sizes ("largest block first")
     for reg in (["mxy_cc", "mx_c", "my_c", "mz_c"], ["mxz_cc", "mx_c", "my_c", "mz_c"], ["myz_cc", "mx_c", "my_c", "mz_c"], ["mxy_cc", "mz_c"],
-                ["mxy_lc", "mx_c", "my_c", "mz_c"], ["mxy_cc", "myz_cc", "mx_c", "my_c", "mz_c"], ["mx_c", "my_c", "mz_c"], ["mx_l", "my_c", "mz_o"],
-                ["mxyz_ccc", "mxy_cc", "mz_c"], ["mxy_cc", "mz_o", "mx_l"], ["mx_c", "my_c"], ["mxz_lc", "my_l"]):
+                ["mxy_lc", "mx_c", "my_r", "mz_c"], ["mxy_cc", "myz_cc", "mx_c", "my_c", "mz_c"], ["mx_c", "my_c", "mz_c"], ["mx_l", "my_c", "mz_o"],
+                ["mxyz_ccc", "mxy_cc", "mz_c"], ["mxy_cc", "mz_o", "mx_l"], ["mx_c", "my_c"], ["mxz_lc", "my_r"]):
         out.append(dict(kind="sel", axes=["X", "Y", "Z"], reg=reg, N=2))
     if tier == "thorough":
         rng = random.Random(int(os.environ.get("VERIF_SEED", "0")))
@@ -100,6 +100,10 @@ def interp_extend(vals, frm, to):
         return [(vals[max(i - 1, 0)] + vals[i]) / 2 for i in range(n)]
     if frm == "left" and to == "center":
         return [(vals[i] + vals[min(i + 1, n - 1)]) / 2 for i in range(n)]
+    if frm == "center" and to == "right":
+        return [(vals[i] + vals[min(i + 1, n - 1)]) / 2 for i in range(n)]
+    if frm == "right" and to == "center":
+        return [(vals[max(i - 1, 0)] + vals[i]) / 2 for i in range(n)]
     if frm == "center" and to == "outer":
         return [(vals[max(i - 1, 0)] + vals[min(i, n - 1)]) / 2 for i in range(n + 1)]
     if frm == "outer" and to == "center":
